@@ -29,7 +29,9 @@ def make(rng):
             frames += cf
     for it in post:
         frames += gen_core.serialise_item(rng, it)
-    data = sc.good_reply() + b''.join(frames)
+    neg = rng.random() < 0.3          # permessage-deflate negotiated: the application's data sends go through the compressed path
+    sc.compress = neg
+    data = sc.good_reply(b'Sec-WebSocket-Extensions: permessage-deflate\r\n' if neg else b'') + b''.join(frames)
     sc.env = reads(limit_chunks(cut(data, random_cuts(rng, len(data), rng.choice([0, 0, 2, 5]))))) + [('wait', 1, ('eof',))]
     rx = {}
     r = rng.random()
@@ -59,6 +61,8 @@ def judge(res, js, line, real, server_close=False):
         res.failures.append(dict(cls=cls, what=msg, input=line[-1800:], scenario=js, observed=[t[:70] for t in tk[-10:]]))
     frames = []       # (index, opcode, payload, app?)
     for i, t in enumerate(tk):
+        if t.startswith('Z:'):         # a compressed data frame (canonicalised by the harness to its plaintext)
+            frames.append((i, int(t.split(':')[1]), bytes.fromhex(t.split(':')[2]), i + 1 < len(tk) and tk[i + 1].startswith('R:')))
         if t.startswith('W:'):
             try:
                 f = decode_client_frames(bytes.fromhex(t[2:]))[0]
@@ -133,7 +137,7 @@ def explore(res, tier, seed, model_ok=True):
     rng = random.Random(seed)
     n = 500 if tier == 'quick' else 8000
     res.rule = ('%d histories: handshake, 0-3 messages, application close() at a random event (incl. Connecting/Connected/Ready) with code/reason variants, 0-3 more messages, server Close (valid code, empty, with reason; in a quarter of the cases between the fragments of an unfinished text/binary message) or none, more frames, EOF; '
-                'application sends (text, binary, ping, second close) at random events; close_timeout 30 / 5 / disabled (given as None or as 0); oracle: wire opcode sequence, per-call results and event order judged by rules written from the property; '
+                'application sends (text, binary, ping, second close) at random events; close_timeout 30 / 5 / disabled (given as None or as 0); permessage-deflate negotiated in 30%% (application data then goes through the compressed send path); oracle: wire opcode sequence, per-call results and event order judged by rules written from the property; '
                 'non-trivial = history containing a close() call or a server Close; distinct by operation line') % n
     scs = [make(rng) for _ in range(n)]
     pairs = coreutil.run_pairs(scs, model_ok)
